@@ -161,7 +161,7 @@ def rule_r1(ctx, rep):
             if not ok:
                 rep.add("R1", fi.qname, node, f"`{owner}`'s namespace map is written in place although it may be the dict shared with its parent, "
                         f"siblings or children (sharing is deliberate): the binding changes outside the subtree", fi.loc(node))
-    rep.floor("in-place namespace-map mutations", 4)
+    rep.floor("in-place namespace-map mutations", 2)
 
 
 def rule_r2(ctx, rep):
@@ -271,7 +271,7 @@ def rule_r2(ctx, rep):
                 if not exits_ok:
                     rep.add("R2", fi.qname, lp.iter, f"some child is not visited by `{name}`: the binding does not reach the whole subtree", fi.loc(lp))
     rep.floor("namespace mutators", 2)
-    rep.floor("namespace writes / recursive calls", 8)
+    rep.floor("namespace writes / recursive calls", 6)
 
 
 def _all_paths_pass(ctx, fi, loop, calls):
